@@ -12,12 +12,13 @@ Proof. destruct a, b; simpl; intros; congruence. Qed.
 
 Lemma ty_eqb_eq : forall a b, ty_eqb a b = true -> a = b.
 Proof.
-  destruct a as [| | | | x], b as [| | | | y]; simpl; intros H; try congruence.
-  apply bty_eqb_eq in H. congruence.
+  destruct a as [| | | | x | d n], b as [| | | | y | d' n']; simpl; intros H; try congruence.
+  - apply bty_eqb_eq in H. congruence.
+  - apply andb_prop in H as [H1 H2]. destruct d, d'; try discriminate; destruct n, n'; try discriminate; reflexivity.
 Qed.
 
 Lemma ty_eqb_refl : forall a, ty_eqb a a = true.
-Proof. destruct a; try reflexivity. destruct b; reflexivity. Qed.
+Proof. destruct a; try reflexivity; [destruct b; reflexivity | destruct d, n; reflexivity]. Qed.
 
 Lemma tys_eqb_eq : forall a b, tys_eqb a b = true -> a = b.
 Proof.
@@ -154,10 +155,10 @@ Lemma prim_sound : forall p vs,
     end.
 Proof.
   intros p vs H.
-  destruct p; try destruct n; try destruct b; simpl in H;
+  destruct p; try destruct d; try destruct n; try destruct b; simpl in H;
     repeat (destruct vs as [| ?v vs]; simpl in H; try discriminate);
     repeat match goal with
-           | v : value |- _ => destruct v as [[] ?|?|?|[] ?|?|?]; simpl in H; try discriminate
+           | v : value |- _ => destruct v as [[] ?|?|?|[] ?|?|?|[] [] ?]; simpl in H; try discriminate
            end;
     simpl;
     repeat match goal with
@@ -168,17 +169,17 @@ Proof.
 Qed.
 
 Lemma bool_value : forall v, type_of v = TBool -> exists b, v = VBool b.
-Proof. destruct v as [[] ? | b | ? | [] ? | ? | ?]; simpl; intros; try discriminate. eauto. Qed.
+Proof. destruct v as [[] ? | b | ? | [] ? | ? | ? | [] [] ?]; simpl; intros; try discriminate. eauto. Qed.
 
 Lemma mi_value : forall v, type_of v = TMI -> exists z, v = VNum NMI z.
-Proof. destruct v as [[] ? | b | ? | [] ? | ? | ?]; simpl; intros; try discriminate. eauto. Qed.
+Proof. destruct v as [[] ? | b | ? | [] ? | ? | ? | [] [] ?]; simpl; intros; try discriminate. eauto. Qed.
 
 
 (* list values and their elements *)
 Lemma dec_list_typed : forall v b, type_of v = TList b ->
     exists vs, dec_list v = Some vs /\ Forall (fun x => type_of x = ty_of_bty b) vs.
 Proof.
-  destruct v as [[] ?|?|?|[] zs|bs|ss]; simpl; intros b0 H; try discriminate; inversion H; subst;
+  destruct v as [[] ?|?|?|[] zs|bs|ss|[] [] ?]; simpl; intros b0 H; try discriminate; inversion H; subst;
     eexists; (split; [reflexivity |]); apply Forall_forall; intros x Hx;
     apply in_map_iff in Hx as (y & <- & _); reflexivity.
 Qed.
@@ -190,18 +191,18 @@ Proof.
   assert (Hn : forall n l, Forall (fun x => type_of x = ty_of_nty n) l ->
                            exists zs, map_opt (fun v => match v with VNum _ z => Some z | _ => None end) l = Some zs).
   { intros n l Hf. induction Hf as [| x l Hx Hl IH]; simpl; [eauto |].
-    destruct x as [n0 z|?|?|? ?|?|?]; simpl in Hx; try (destruct n; discriminate).
+    destruct x as [n0 z|?|?|? ?|?|?|? ? ?]; simpl in Hx; try (destruct n; discriminate).
     destruct IH as (zs & ->). eauto. }
   destruct b; simpl in *.
   - destruct (Hn NMI vs H) as (zs & ->). simpl. eauto.
   - destruct (Hn NInt vs H) as (zs & ->). simpl. eauto.
   - assert (exists bs, map_opt (fun v => match v with VBool x => Some x | _ => None end) vs = Some bs) as (bs & ->).
     { induction H as [| x l Hx Hl IH]; simpl; [eauto |].
-      destruct x as [[] ?|?|?|[] ?|?|?]; simpl in Hx; try discriminate. destruct IH as (bs & ->). eauto. }
+      destruct x as [[] ?|?|?|[] ?|?|?|[] [] ?]; simpl in Hx; try discriminate. destruct IH as (bs & ->). eauto. }
     simpl. eauto.
   - assert (exists ss, map_opt (fun v => match v with VStr x => Some x | _ => None end) vs = Some ss) as (ss & ->).
     { induction H as [| x l Hx Hl IH]; simpl; [eauto |].
-      destruct x as [[] ?|?|?|[] ?|?|?]; simpl in Hx; try discriminate. destruct IH as (ss & ->). eauto. }
+      destruct x as [[] ?|?|?|[] ?|?|?|[] [] ?]; simpl in Hx; try discriminate. destruct IH as (ss & ->). eauto. }
     simpl. eauto.
 Qed.
 
